@@ -1,12 +1,1132 @@
-//! stub: property C02 has no correspondence harness yet
+//! C02 — HTTP/1 responses: one per request, in order, self-framed, body-faithful.
+//! (also hosts the case grammar / runner shared with C03)
+//!
+//! case line (space separated `key=value`; `-` = empty list):
+//!   ka=<0|1> dt=<0|1> hc=<0|1> wb=<n>
+//!   q=<req>;<req>…      req  = <G|H|P|T|D>:<0|1>:<-|k|c|u>:<n|l<len>|c<n>.<n>…>:<-|e|w<k>|f>   or  X (malformed head)
+//!   h=<hand>;<hand>…    hand = p<k>:<i|d|a|r<n>|k>:<status|E<status>>:<-|c|k|u>:<hdrs>:<body>
+//!                       hdrs = - | {L<n> T C K}*      body = e | N | b<n> | z<n>/<scr> | s/<scr> | m<N|S|n>/<scr>
+//!                       scr  = - | <n|P|X>.<…>
+//!   r=<seg>,<seg>…      seg  = P | E | R | unit+unit…   unit = <i>h | <i>ha | <i>hb | <i>b<k> | <i>c<j> | <i>z
+//!   w=<tok>,<tok>…      tok  = <k> | P | X | Z
+//! output: W=<canonical wire hex> T=<len of a trailing incomplete head> C=<dispatched rids> X=<expect rids> R=<rid:bytes:end,…> D=<result> S=<shutdown calls>
+#[path = "../c02_sock.rs"]
+pub mod sock;
+
+use actix_http::{body::BodySize, ConnectionType};
+
+use self::sock::*;
 use super::Prop;
-use crate::common::CaseResult;
+use crate::common::{hex, kv, CaseResult, Ctx, Rng, Tier};
+
+const RULE: &str = "cases = one scripted HTTP/1 connection each: 1–5 pipelined requests (GET/HEAD/POST/PUT/DELETE, 1.0/1.1, \
+Connection options, CL/chunked bodies, Expect), a handler script per request (Pending count, payload action, status, \
+connection type, user CL/TE/Connection headers, body kind: empty/None/bytes/SizedStream exact-short-long/BodyStream/custom \
+body with empty chunks, Pending, error), a read schedule (segments cut at head/body-unit boundaries, Pending, EOF, reset) \
+and a write schedule (partial writes, Pending, error); corpus replays first, then an exhaustive two-request family over \
+method x version x connection x handler-delay x body kind, then seeded random cases; non-trivial = at least one request \
+reached the service and at least one response head was written; distinct = distinct (case, output) hashes";
+
+// ---------------------------------------------------------------------------------------------
+// case model (ground truth of the generator)
+
+#[derive(Clone, Debug, PartialEq)]
+pub enum ReqBody {
+    None,
+    Len(usize),
+    Chunked(Vec<usize>),
+}
+
+#[derive(Clone, Debug)]
+pub struct Req {
+    pub malformed: bool,
+    pub method: &'static str,
+    pub minor: u8,
+    pub conn: char,
+    pub body: ReqBody,
+    pub expect: Option<ExpectAct>,
+}
+
+pub struct Case {
+    pub cfg: Config,
+    pub reqs: Vec<Req>,
+    pub handlers: Vec<Handler>,
+    pub reads: Vec<ReadTok>,
+    pub writes: Vec<WriteTok>,
+    pub has_eof_or_reset: bool,
+}
+
+const SMUGGLE: &[u8] = b"GET /99 HTTP/1.1\r\n\r\n";
+
+impl Req {
+    pub fn head(&self, i: usize) -> Vec<u8> {
+        if self.malformed {
+            return format!("GET /{i} HTTP/1.1\r\ncontent-length: x\r\n\r\n").into_bytes();
+        }
+        let mut s = format!("{} /{} HTTP/1.{}\r\n", self.method, i, self.minor);
+        match self.conn {
+            'k' => s.push_str("connection: keep-alive\r\n"),
+            'c' => s.push_str("connection: close\r\n"),
+            'u' => s.push_str("connection: upgrade\r\n"),
+            _ => {}
+        }
+        match &self.body {
+            ReqBody::None => {}
+            ReqBody::Len(n) => s.push_str(&format!("content-length: {n}\r\n")),
+            ReqBody::Chunked(_) => s.push_str("transfer-encoding: chunked\r\n"),
+        }
+        if self.expect.is_some() {
+            s.push_str("expect: 100-continue\r\n");
+        }
+        s.push_str("\r\n");
+        s.into_bytes()
+    }
+    /// the body bytes as the handler should see them
+    pub fn body_bytes(&self) -> Vec<u8> {
+        let n = match &self.body {
+            ReqBody::None => 0,
+            ReqBody::Len(n) => *n,
+            ReqBody::Chunked(v) => v.iter().sum(),
+        };
+        (0..n).map(|k| SMUGGLE[k % SMUGGLE.len()]).collect()
+    }
+    pub fn has_body(&self) -> bool {
+        match &self.body {
+            ReqBody::None => false,
+            ReqBody::Len(n) => *n > 0,
+            ReqBody::Chunked(_) => true,
+        }
+    }
+}
+
+fn parse_script(s: &str) -> Option<Vec<BodyTok>> {
+    if s == "-" || s.is_empty() {
+        return Some(vec![]);
+    }
+    s.split('.')
+        .map(|t| match t {
+            "P" => Some(BodyTok::Pending),
+            "X" => Some(BodyTok::Err),
+            n => n.parse().ok().map(BodyTok::Chunk),
+        })
+        .collect()
+}
+
+fn parse_req(s: &str) -> Option<Req> {
+    if s == "X" {
+        return Some(Req { malformed: true, method: "GET", minor: 1, conn: '-', body: ReqBody::None, expect: None });
+    }
+    let f: Vec<&str> = s.split(':').collect();
+    if f.len() != 5 {
+        return None;
+    }
+    let method = match f[0] {
+        "G" => "GET",
+        "H" => "HEAD",
+        "P" => "POST",
+        "T" => "PUT",
+        "D" => "DELETE",
+        _ => return None,
+    };
+    let minor = match f[1] {
+        "0" => 0,
+        "1" => 1,
+        _ => return None,
+    };
+    let conn = f[2].chars().next()?;
+    let body = if f[3] == "n" {
+        ReqBody::None
+    } else if let Some(n) = f[3].strip_prefix('l') {
+        ReqBody::Len(n.parse().ok()?)
+    } else if let Some(cs) = f[3].strip_prefix('c') {
+        ReqBody::Chunked(if cs.is_empty() { vec![] } else { cs.split('.').map(|x| x.parse().ok()).collect::<Option<_>>()? })
+    } else {
+        return None;
+    };
+    let expect = match f[4] {
+        "-" => None,
+        "e" => Some(ExpectAct::Ok(0)),
+        "f" => Some(ExpectAct::Fail),
+        w => Some(ExpectAct::Ok(w.strip_prefix('w')?.parse().ok()?)),
+    };
+    Some(Req { malformed: false, method, minor, conn, body, expect })
+}
+
+fn parse_handler(s: &str) -> Option<Handler> {
+    let f: Vec<&str> = s.split(':').collect();
+    if f.len() != 6 {
+        return None;
+    }
+    let pend = f[0].strip_prefix('p')?.parse().ok()?;
+    let act = match f[1] {
+        "i" => PayloadAct::Ignore,
+        "d" => PayloadAct::DropEarly,
+        "a" => PayloadAct::ReadAll,
+        "k" => PayloadAct::Hold,
+        r => PayloadAct::ReadN(r.strip_prefix('r')?.parse().ok()?),
+    };
+    let status = match f[2].strip_prefix('E') {
+        Some(e) => Err(e.parse().ok()?),
+        None => Ok(f[2].parse().ok()?),
+    };
+    let conn = match f[3] {
+        "-" => None,
+        "c" => Some(ConnectionType::Close),
+        "k" => Some(ConnectionType::KeepAlive),
+        "u" => Some(ConnectionType::Upgrade),
+        _ => return None,
+    };
+    let (mut user_cl, mut user_te, mut user_conn, mut no_chunking) = (None, false, false, false);
+    if f[4] != "-" {
+        let cs: Vec<char> = f[4].chars().collect();
+        let mut i = 0;
+        while i < cs.len() {
+            match cs[i] {
+                'L' => {
+                    let mut j = i + 1;
+                    while j < cs.len() && cs[j].is_ascii_digit() {
+                        j += 1;
+                    }
+                    user_cl = Some(cs[i + 1..j].iter().collect::<String>().parse().ok()?);
+                    i = j;
+                    continue;
+                }
+                'T' => user_te = true,
+                'C' => user_conn = true,
+                'K' => no_chunking = true,
+                _ => return None,
+            }
+            i += 1;
+        }
+    }
+    let b = f[5];
+    let body = if b == "e" {
+        BodyKind::Empty
+    } else if b == "N" {
+        BodyKind::NoneBody
+    } else if let Some(n) = b.strip_prefix('b') {
+        BodyKind::Bytes(n.parse().ok()?)
+    } else if let Some(r) = b.strip_prefix('z') {
+        let (n, sc) = r.split_once('/')?;
+        BodyKind::SizedStream(n.parse().ok()?, parse_script(sc)?)
+    } else if let Some(sc) = b.strip_prefix("s/") {
+        BodyKind::BodyStream(parse_script(sc)?)
+    } else if let Some(r) = b.strip_prefix('m') {
+        let (n, sc) = r.split_once('/')?;
+        let sz = match n {
+            "N" => BodySize::None,
+            "S" => BodySize::Stream,
+            n => BodySize::Sized(n.parse().ok()?),
+        };
+        BodyKind::Custom(sz, parse_script(sc)?)
+    } else {
+        return None;
+    };
+    Some(Handler { pend, act, status, conn, user_cl, user_te, user_conn, no_chunking, body })
+}
+
+pub fn parse_case(line: &str) -> Option<Case> {
+    let b = |k: &str| kv(line, k).map(|v| v == "1");
+    let cfg = Config { ka: b("ka")?, dt: b("dt")?, hc: b("hc")?, wb: kv(line, "wb")?.parse().ok().filter(|n| *n > 0)? };
+    let list = |k: &str, sep: char| -> Vec<String> {
+        match kv(line, k) {
+            None | Some("-") | Some("") => vec![],
+            Some(v) => v.split(sep).map(|s| s.to_owned()).collect(),
+        }
+    };
+    let reqs: Vec<Req> = list("q", ';').iter().map(|s| parse_req(s)).collect::<Option<_>>()?;
+    let mut handlers: Vec<Handler> = list("h", ';').iter().map(|s| parse_handler(s)).collect::<Option<_>>()?;
+    while handlers.len() < reqs.len() {
+        handlers.push(parse_handler("p0:i:200:-:-:e").unwrap());
+    }
+    // read script
+    let bodies: Vec<Vec<u8>> = reqs.iter().map(|r| r.body_bytes()).collect();
+    let mut cur = vec![0usize; reqs.len()];
+    let mut reads = Vec::new();
+    let mut has_eof_or_reset = false;
+    for seg in list("r", ',') {
+        match seg.as_str() {
+            "P" => reads.push(ReadTok::Pending),
+            "E" => {
+                has_eof_or_reset = true;
+                reads.push(ReadTok::Eof)
+            }
+            "R" => {
+                has_eof_or_reset = true;
+                reads.push(ReadTok::Reset)
+            }
+            s => {
+                let mut data = Vec::new();
+                for u in s.split('+') {
+                    let p = u.find(|c: char| !c.is_ascii_digit())?;
+                    let i: usize = u[..p].parse().ok()?;
+                    let r = reqs.get(i)?;
+                    let rest = &u[p..];
+                    let head = r.head(i);
+                    match rest {
+                        "h" => data.extend_from_slice(&head),
+                        "ha" => data.extend_from_slice(&head[..head.len() / 2]),
+                        "hb" => data.extend_from_slice(&head[head.len() / 2..]),
+                        "z" => data.extend_from_slice(b"0\r\n\r\n"),
+                        _ => {
+                            if let Some(k) = rest.strip_prefix('b') {
+                                let k: usize = k.parse().ok()?;
+                                let end = (cur[i] + k).min(bodies[i].len());
+                                data.extend_from_slice(&bodies[i][cur[i]..end]);
+                                cur[i] = end;
+                            } else if let Some(j) = rest.strip_prefix('c') {
+                                let j: usize = j.parse().ok()?;
+                                let ReqBody::Chunked(sizes) = &r.body else { return None };
+                                let n = *sizes.get(j)?;
+                                let off: usize = sizes[..j].iter().sum();
+                                data.extend_from_slice(format!("{:x}\r\n", n).as_bytes());
+                                data.extend_from_slice(&bodies[i][off..off + n]);
+                                data.extend_from_slice(b"\r\n");
+                            } else {
+                                return None;
+                            }
+                        }
+                    }
+                }
+                reads.push(ReadTok::Data(data));
+            }
+        }
+    }
+    let writes = list("w", ',')
+        .iter()
+        .map(|t| match t.as_str() {
+            "P" => Some(WriteTok::Pending),
+            "X" => Some(WriteTok::Err),
+            "Z" => Some(WriteTok::Zero),
+            k => k.parse().ok().filter(|k| *k > 0).map(WriteTok::Accept),
+        })
+        .collect::<Option<_>>()?;
+    Some(Case { cfg, reqs, handlers, reads, writes, has_eof_or_reset })
+}
+
+// ---------------------------------------------------------------------------------------------
+// canonical wire: at every `HTTP/1.` (bodies never contain an upper-case letter) sort the header
+// lines of the head and drop `date`
+
+fn find(h: &[u8], n: &[u8], from: usize) -> Option<usize> {
+    if n.is_empty() || h.len() < n.len() {
+        return None;
+    }
+    (from..=h.len() - n.len()).find(|&i| &h[i..i + n.len()] == n)
+}
+
+pub fn canon_wire(w: &[u8]) -> (Vec<u8>, usize) {
+    let mut out = Vec::with_capacity(w.len());
+    let mut pos = 0;
+    while pos < w.len() {
+        let Some(start) = find(w, b"HTTP/1.", pos) else { break };
+        out.extend_from_slice(&w[pos..start]);
+        let Some(end) = find(w, b"\r\n\r\n", start) else {
+            // an incomplete head at the end of the wire: only its length is canonical
+            return (out, w.len() - start);
+        };
+        let head = &w[start..end];
+        let mut lines: Vec<&[u8]> = Vec::new();
+        let mut p = 0;
+        while let Some(e) = find(head, b"\r\n", p) {
+            lines.push(&head[p..e]);
+            p = e + 2;
+        }
+        lines.push(&head[p..]);
+        out.extend_from_slice(lines[0]);
+        out.extend_from_slice(b"\r\n");
+        let mut hs: Vec<&[u8]> = lines[1..].iter().copied().filter(|l| !l.starts_with(b"date: ")).collect();
+        hs.sort();
+        for l in hs {
+            out.extend_from_slice(l);
+            out.extend_from_slice(b"\r\n");
+        }
+        out.extend_from_slice(b"\r\n");
+        pos = end + 4;
+    }
+    out.extend_from_slice(&w[pos..]);
+    (out, 0)
+}
+
+// ---------------------------------------------------------------------------------------------
+// independent client-side response splitter (RFC 7230 §3.3.3), told the request methods
+
+#[derive(Debug, Clone, PartialEq)]
+pub enum Framing {
+    NoBody,
+    Length(usize),
+    Chunked,
+    Close,
+}
+
+#[derive(Debug, Clone)]
+pub struct Resp {
+    pub minor: u8,
+    pub status: u16,
+    pub headers: Vec<(String, String)>,
+    pub framing: Framing,
+    pub body: Vec<u8>,
+    pub complete: bool,
+    pub end: usize,
+}
+
+impl Resp {
+    pub fn header(&self, n: &str) -> Option<&str> {
+        self.headers.iter().find(|(k, _)| k == n).map(|(_, v)| v.as_str())
+    }
+    pub fn count(&self, n: &str) -> usize {
+        self.headers.iter().filter(|(k, _)| k == n).count()
+    }
+    /// does this response tell the client that the connection will not be reused?
+    pub fn announces_close(&self) -> bool {
+        let c = self.header("connection").map(|v| v.to_ascii_lowercase());
+        if self.minor == 0 {
+            c.as_deref() != Some("keep-alive")
+        } else {
+            c.as_deref() == Some("close")
+        }
+    }
+}
+
+pub struct Split {
+    pub finals: Vec<Resp>,
+    /// number of `100 Continue` seen before final response k
+    pub continues_before: Vec<usize>,
+    /// bytes that could not be parsed as a response head (offset), if any
+    pub garbage_at: Option<usize>,
+    /// an incomplete head at the end of the wire
+    pub partial_head: bool,
+}
+
+fn parse_chunked(b: &[u8]) -> (Vec<u8>, bool, usize) {
+    // returns (decoded, complete, consumed)
+    let mut out = Vec::new();
+    let mut p = 0;
+    loop {
+        let Some(e) = find(b, b"\r\n", p) else { return (out, false, b.len()) };
+        let line = &b[p..e];
+        let hexpart: &[u8] = line.split(|c| *c == b';').next().unwrap_or(line);
+        let Ok(s) = std::str::from_utf8(hexpart) else { return (out, false, b.len()) };
+        let Ok(n) = usize::from_str_radix(s.trim(), 16) else { return (out, false, b.len()) };
+        p = e + 2;
+        if n == 0 {
+            // no trailers are ever sent by the server under test: expect the final CRLF
+            if b.len() >= p + 2 && &b[p..p + 2] == b"\r\n" {
+                return (out, true, p + 2);
+            }
+            return (out, false, b.len());
+        }
+        if b.len() < p + n + 2 {
+            out.extend_from_slice(&b[p..b.len().min(p + n)]);
+            return (out, false, b.len());
+        }
+        out.extend_from_slice(&b[p..p + n]);
+        if &b[p + n..p + n + 2] != b"\r\n" {
+            return (out, false, b.len());
+        }
+        p += n + 2;
+    }
+}
+
+pub fn split_responses(w: &[u8], methods: &[&str]) -> Split {
+    let mut sp = Split { finals: vec![], continues_before: vec![], garbage_at: None, partial_head: false };
+    let mut pos = 0;
+    let mut conts = 0;
+    while pos < w.len() {
+        if !w[pos..].starts_with(b"HTTP/1.") {
+            if b"HTTP/1.".starts_with(&w[pos..]) {
+                sp.partial_head = true;
+            } else {
+                sp.garbage_at = Some(pos);
+            }
+            break;
+        }
+        let Some(he) = find(w, b"\r\n\r\n", pos) else {
+            sp.partial_head = true;
+            break;
+        };
+        let head = String::from_utf8_lossy(&w[pos..he]).into_owned();
+        let mut lines = head.split("\r\n");
+        let sl = lines.next().unwrap_or("");
+        let minor = if sl.starts_with("HTTP/1.0 ") { 0 } else { 1 };
+        let status: u16 = sl.get(9..12).and_then(|s| s.parse().ok()).unwrap_or(0);
+        if status == 0 {
+            sp.garbage_at = Some(pos);
+            break;
+        }
+        let headers: Vec<(String, String)> = lines
+            .filter_map(|l| l.split_once(':').map(|(k, v)| (k.trim().to_ascii_lowercase(), v.trim().to_owned())))
+            .collect();
+        let body_start = he + 4;
+        if status == 100 {
+            conts += 1;
+            pos = body_start;
+            continue;
+        }
+        let method = methods.get(sp.finals.len()).copied().unwrap_or("GET");
+        let te_chunked = headers.iter().any(|(k, v)| k == "transfer-encoding" && v.to_ascii_lowercase().contains("chunked"));
+        let cl = headers.iter().find(|(k, _)| k == "content-length").and_then(|(_, v)| v.parse::<usize>().ok());
+        let framing = if method == "HEAD" || (100..200).contains(&status) || status == 204 || status == 304 {
+            Framing::NoBody
+        } else if te_chunked {
+            Framing::Chunked
+        } else if let Some(n) = cl {
+            Framing::Length(n)
+        } else {
+            Framing::Close
+        };
+        let rest = &w[body_start..];
+        let (body, complete, used) = match &framing {
+            Framing::NoBody => (vec![], true, 0),
+            Framing::Length(n) => {
+                if rest.len() >= *n {
+                    (rest[..*n].to_vec(), true, *n)
+                } else {
+                    (rest.to_vec(), false, rest.len())
+                }
+            }
+            Framing::Chunked => parse_chunked(rest),
+            Framing::Close => (rest.to_vec(), true, rest.len()),
+        };
+        sp.continues_before.push(conts);
+        conts = 0;
+        pos = body_start + used;
+        sp.finals.push(Resp { minor, status, headers, framing, body, complete, end: pos });
+    }
+    sp
+}
+
+// ---------------------------------------------------------------------------------------------
+// expectations computed from the generator's ground truth only
+
+pub struct Expected {
+    pub body: Vec<u8>,
+    /// the body script fails (error, or a sized body that ends short)
+    pub fails: bool,
+    pub size: BodySize,
+}
+
+fn script_bytes(rid: usize, t: &[BodyTok]) -> (Vec<u8>, bool) {
+    let mut v = Vec::new();
+    for x in t {
+        match x {
+            BodyTok::Chunk(n) => {
+                let l = v.len();
+                v.extend((0..*n).map(|i| body_byte(rid, l + i)))
+            }
+            BodyTok::Pending => {}
+            BodyTok::Err => return (v, true),
+        }
+    }
+    (v, false)
+}
+
+pub fn expected_body(rid: usize, h: &Handler) -> Expected {
+    if h.status.is_err() {
+        return Expected { body: b"err".to_vec(), fails: false, size: BodySize::Sized(3) };
+    }
+    match &h.body {
+        BodyKind::Empty => Expected { body: vec![], fails: false, size: BodySize::Sized(0) },
+        BodyKind::NoneBody => Expected { body: vec![], fails: false, size: BodySize::None },
+        BodyKind::Bytes(n) => Expected { body: (0..*n).map(|i| body_byte(rid, i)).collect(), fails: false, size: BodySize::Sized(*n as u64) },
+        BodyKind::SizedStream(n, t) => {
+            let (mut b, e) = script_bytes(rid, t);
+            let short = (b.len() as u64) < *n;
+            b.truncate(*n as usize);
+            Expected { body: b, fails: (e && short) || short, size: BodySize::Sized(*n) }
+        }
+        BodyKind::BodyStream(t) => {
+            let (b, e) = script_bytes(rid, t);
+            Expected { body: b, fails: e, size: BodySize::Stream }
+        }
+        BodyKind::Custom(sz, t) => {
+            let (mut b, e) = script_bytes(rid, t);
+            match sz {
+                BodySize::Sized(n) => {
+                    let short = (b.len() as u64) < *n;
+                    b.truncate(*n as usize);
+                    Expected { body: b, fails: short, size: *sz }
+                }
+                BodySize::None => Expected { body: vec![], fails: false, size: *sz },
+                BodySize::Stream => Expected { body: b, fails: e, size: *sz },
+            }
+        }
+    }
+}
+
+pub struct Run {
+    pub line: String,
+    pub case: Case,
+    pub sim: SimResult,
+    pub output: String,
+}
+
+pub fn run_case(line: &str) -> Option<Run> {
+    let case = parse_case(line)?;
+    let expects: Vec<ExpectAct> = case.reqs.iter().map(|r| r.expect.clone().unwrap_or(ExpectAct::Ok(0))).collect();
+    let bodies: Vec<Vec<u8>> = case.reqs.iter().map(|r| r.body_bytes()).collect();
+    let sim = simulate(&case.cfg, case.handlers.clone(), expects, bodies, case.reads.clone(), case.writes.clone());
+    let rid = |r: &Option<usize>| r.map(|i| i.to_string()).unwrap_or_else(|| "?".into());
+    let calls: Vec<String> = sim.log.calls.iter().map(|c| rid(&c.0)).collect();
+    let xs: Vec<String> = sim.log.expect_calls.iter().map(rid).collect();
+    let reads: Vec<String> = sim
+        .log
+        .reads
+        .iter()
+        .map(|r| format!("{}:{}:{}", if r.rid == usize::MAX { "?".into() } else { r.rid.to_string() }, r.bytes, r.end))
+        .collect();
+    let dash = |v: Vec<String>| if v.is_empty() { "-".to_owned() } else { v.join(",") };
+    let cw = canon_wire(&sim.wire);
+    let output = format!(
+        "W={} T={} C={} X={} R={} D={} S={}",
+        hex(&cw.0),
+        cw.1,
+        dash(calls),
+        dash(xs),
+        dash(reads),
+        sim.done,
+        sim.shutdown_calls
+    );
+    Some(Run { line: line.to_owned(), case, sim, output })
+}
+
+/// ground-truth check shared by C02 and C03: the service saw exactly a prefix of the requests the
+/// generator sent, in order, with the right method and version
+pub fn check_dispatch(run: &Run) -> Result<Vec<usize>, (String, String)> {
+    let mut ids = Vec::new();
+    for (k, (rid, m, p, minor)) in run.sim.log.seen.iter().enumerate() {
+        let Some(i) = rid else {
+            return Err(("phantom-request".into(), format!("service saw {m} {p}, which the client never sent as a request")));
+        };
+        let Some(r) = run.case.reqs.get(*i) else {
+            return Err(("phantom-request".into(), format!("service saw {m} {p}")));
+        };
+        if r.malformed || r.method != m || r.minor != *minor {
+            return Err(("phantom-request".into(), format!("service saw {m} {p} HTTP/1.{minor}, sent {} HTTP/1.{}", r.method, r.minor)));
+        }
+        if *i != k {
+            return Err(("dispatch-order".into(), format!("call #{k} was request {i}")));
+        }
+        ids.push(*i);
+    }
+    Ok(ids)
+}
+
+fn size_of(s: BodySize) -> String {
+    match s {
+        BodySize::None => "none".into(),
+        BodySize::Stream => "stream".into(),
+        BodySize::Sized(n) => format!("sized({n})"),
+    }
+}
+
+/// C02's own words, evaluated on the implementation's wire bytes and call log only.
+pub fn oracle_c02(run: &Run) -> Option<(String, String)> {
+    let ids = match check_dispatch(run) {
+        Ok(v) => v,
+        Err(e) => return Some(e),
+    };
+    let case = &run.case;
+    let methods: Vec<&str> = ids.iter().map(|i| case.reqs[*i].method).collect();
+    let sp = split_responses(&run.sim.wire, &methods);
+    // responses beyond the dispatched requests: at most one dispatcher-made error response
+    if sp.finals.len() > ids.len() + 1 {
+        return Some(("extra-response".into(), format!("{} final responses for {} dispatched requests", sp.finals.len(), ids.len())));
+    }
+    let mut failed_at: Option<usize> = None;
+    // what the server does after a response that announced close is C03's subject
+    let closed_at = sp.finals.iter().position(|r| r.announces_close() && r.framing != Framing::Close);
+    for (k, r) in sp.finals.iter().enumerate() {
+        if closed_at.is_some_and(|c| k > c) {
+            return None;
+        }
+        if k >= ids.len() {
+            // dispatcher-made response (parse error / internal error): no service identity
+            if r.header("x-rid").is_some() || !matches!(r.status, 400 | 408 | 431 | 500) {
+                return Some(("extra-response".into(), format!("response #{k} status {} answers no dispatched request", r.status)));
+            }
+            continue;
+        }
+        let i = ids[k];
+        let req = &case.reqs[i];
+        let h = &case.handlers[i];
+        let exp_fail = req.expect == Some(ExpectAct::Fail);
+        let want_rid = if h.status.is_err() || exp_fail { "e".to_owned() } else { i.to_string() };
+        match r.header("x-rid") {
+            Some(v) if v == want_rid => {}
+            other => {
+                return Some(("order".into(), format!("response #{k} carries x-rid {:?}, expected {want_rid} (request {i})", other)));
+            }
+        }
+        // 100-continue only for requests that asked for it, at most once
+        let conts = sp.continues_before[k];
+        let may_cont = matches!(req.expect, Some(ExpectAct::Ok(_)));
+        if conts > usize::from(may_cont) {
+            return Some(("continue".into(), format!("{conts} interim 100 responses before response #{k}")));
+        }
+        if r.minor != req.minor {
+            return Some(("ctx-version".into(), format!("response #{k} to an HTTP/1.{} request is labelled HTTP/1.{}", req.minor, r.minor)));
+        }
+        let want_status = if exp_fail { 417 } else { h.status.unwrap_or_else(|e| e) };
+        if r.status != want_status {
+            return Some(("status".into(), format!("response #{k} status {} expected {want_status}", r.status)));
+        }
+        let e = if exp_fail {
+            Expected { body: b"err".to_vec(), fails: false, size: BodySize::Sized(3) }
+        } else {
+            expected_body(i, h)
+        };
+        let bodiless = req.method == "HEAD" || matches!(r.status, 100..=199 | 204 | 304);
+        // --- framing headers as a function of (request, response) only
+        if !bodiless && (r.count("content-length") > 1 || r.count("transfer-encoding") > 1) || !bodiless && (r.count("content-length") == 1 && r.count("transfer-encoding") == 1 && !h.no_chunking) {
+            return Some(("framing-ambiguous".into(), format!("response #{k} carries content-length x{} and transfer-encoding x{}", r.count("content-length"), r.count("transfer-encoding"))));
+        }
+        if matches!(r.status, 100..=199 | 204) && (r.count("content-length") + r.count("transfer-encoding") > 0) {
+            return Some(("framing-204".into(), format!("status {} with a framing header", r.status)));
+        }
+        if !bodiless && !h.no_chunking {
+            match e.size {
+                BodySize::Sized(n) => {
+                    if r.framing != Framing::Length(n as usize) {
+                        return Some(("framing-sized".into(), format!("response #{k} body {} framed as {:?}", size_of(e.size), r.framing)));
+                    }
+                }
+                BodySize::None => {
+                    // no framing header: only legal if the connection is closed afterwards
+                }
+                BodySize::Stream => {
+                    if req.minor == 0 {
+                        if r.header("transfer-encoding").is_some() {
+                            return Some(("http10-chunked".into(), format!("response #{k} to an HTTP/1.0 request carries transfer-encoding: {:?}", r.header("transfer-encoding"))));
+                        }
+                    } else if r.framing != Framing::Chunked {
+                        return Some(("framing-stream".into(), format!("response #{k} stream body framed as {:?}", r.framing)));
+                    }
+                }
+            }
+        }
+        if r.framing == Framing::Close && !r.announces_close() && e.size != BodySize::None {
+            return Some(("close-delimited-keepalive".into(), format!("response #{k} is delimited by connection close but does not announce it")));
+        }
+        // --- connection header: depends on this request, this response and the server setting only
+        let hconn = if h.status.is_err() || exp_fail { None } else { h.conn };
+        let req_close = req.conn == 'c' || (req.minor == 0 && req.conn != 'k') || !case.cfg.ka;
+        let want_close = (req_close && req.conn != 'u' || hconn == Some(ConnectionType::Close)) && h.conn != Some(ConnectionType::Upgrade);
+        // HTTP/1.0 has no chunked coding: a stream body is delimited by closing (request + response only)
+        let http10_stream = req.minor == 0 && e.size == BodySize::Stream && !h.no_chunking && req.method != "HEAD";
+        let want_close = want_close || (http10_stream && !bodiless);
+        let upgrade = hconn == Some(ConnectionType::Upgrade) || (hconn.is_none() && req.conn == 'u' && case.cfg.ka || hconn == Some(ConnectionType::KeepAlive) && req.conn == 'u');
+        if !upgrade {
+            if want_close && !r.announces_close() {
+                return Some(("ctx-conn".into(), format!("response #{k} (request {i}) should announce close and does not: {:?}", r.header("connection"))));
+            }
+            if !want_close && r.announces_close() && !req.has_body() && !http10_stream {
+                return Some(("ctx-conn".into(), format!("response #{k} (request {i}, no body, keep-alive) announces close: {:?}", r.header("connection"))));
+            }
+        }
+        // --- a close-delimited message must be the last thing on the connection
+        if !bodiless && r.framing == Framing::Close {
+            if e.size == BodySize::None {
+                // `BodySize::None` on a status that allows a body: the handler asked for a message
+                // without framing headers; nothing after it can be attributed (API misuse, not judged)
+                return None;
+            }
+            if k + 1 < ids.len() || r.body.len() > e.body.len() {
+                return Some(("close-delimited-not-last".into(), format!("response #{k} is delimited by connection close, yet request {} was dispatched / more bytes follow", ids.get(k + 1).copied().unwrap_or(0))));
+            }
+        }
+        // --- body
+        if bodiless {
+            // any body byte the server wrote shows up as garbage / a bogus next head
+            continue;
+        }
+        if e.fails {
+            if r.complete && r.framing != Framing::Close {
+                return Some(("failure-looks-complete".into(), format!("response #{k}: body failed/short, but the message on the wire is complete ({:?}, {} bytes)", r.framing, r.body.len())));
+            }
+            failed_at = Some(k);
+            if k + 1 < sp.finals.len() {
+                return Some(("bytes-after-failure".into(), format!("a response follows failed response #{k}")));
+            }
+            continue;
+        }
+        let client_left = case.has_eof_or_reset || !case.writes.is_empty();
+        if r.framing == Framing::Close && client_left {
+            // close-delimited and the peer went away / stalled: only a prefix can be required
+            if !e.body.starts_with(&r.body) {
+                return Some(("body-mismatch".into(), format!("response #{k}: close-delimited body is not a prefix of what the handler produced")));
+            }
+            continue;
+        }
+        if r.complete && r.body != e.body {
+            let sig = if matches!(&h.body, BodyKind::Custom(BodySize::Stream, t) if t.contains(&BodyTok::Chunk(0))) && r.body.len() < e.body.len() {
+                "empty-chunk-truncates"
+            } else if !r.body.is_empty() && b"HTTP/1.".starts_with(&r.body[..r.body.len().min(7)]) {
+                // the declared body is missing and the next response head sits in its place
+                "ctx-head-flag"
+            } else {
+                "body-mismatch"
+            };
+            return Some((sig.into(), format!("response #{k}: client decodes {} bytes, handler produced {} (framing {:?})", r.body.len(), e.body.len(), r.framing)));
+        }
+        if !r.complete && !e.body.starts_with(&r.body) {
+            return Some(("body-mismatch".into(), format!("response #{k}: partial body is not a prefix of what the handler produced")));
+        }
+    }
+    if closed_at.is_some_and(|c| c + 1 < sp.finals.len() || c + 1 < ids.len()) {
+        return None;
+    }
+    if let Some(p) = sp.garbage_at {
+        // bytes that are not a response: a body written for a bodiless response, or junk
+        let k = sp.finals.len();
+        let prev_bodiless = k > 0 && k <= ids.len() && {
+            let i = ids[k - 1];
+            case.reqs[i].method == "HEAD" || matches!(sp.finals[k - 1].status, 100..=199 | 204 | 304)
+        };
+        let sig = if prev_bodiless && sp.finals[k - 1].status == 304 && methods.get(k - 1) != Some(&"HEAD") {
+            "body-after-304"
+        } else if prev_bodiless {
+            "bodiless-has-body"
+        } else {
+            "garbage-on-wire"
+        };
+        return Some((sig.into(), format!("unparsable bytes at offset {p} after response #{}", k.saturating_sub(1))));
+    }
+    // --- exactly one: every dispatched request but the last is answered completely; the last one
+    // too when the connection was left open / closed in an orderly way and nothing failed
+    for k in 0..ids.len() {
+        let last = k + 1 == ids.len();
+        let answered = sp.finals.get(k).is_some_and(|r| r.complete);
+        if run.sim.done.starts_with("err") {
+            // the connection was torn down: buffered responses may be lost with it
+            break;
+        }
+        if !last && !answered && failed_at != Some(k) && case.writes.is_empty() {
+            return Some(("missing-response".into(), format!("request {} was dispatched after request {} but that one has no complete response", ids[k + 1], ids[k])));
+        }
+        if last && !answered && failed_at.is_none() {
+            let blocked = run.sim.log.reads.iter().any(|r| r.rid == ids[k] && r.end == 'p');
+            let client_left = case.has_eof_or_reset || !case.writes.is_empty();
+            let e = expected_body(ids[k], &case.handlers[ids[k]]);
+            if !blocked && !client_left && !e.fails && run.sim.done != "livelock" && !run.sim.done.starts_with("err") {
+                let sig = if !case.cfg.hc && case.reqs.iter().any(|r| r.malformed) { "abort-on-pipelined-parse-error" } else { "missing-response" };
+                return Some((sig.into(), format!("request {} was dispatched and never answered (D={})", ids[k], run.sim.done)));
+            }
+        }
+    }
+    None
+}
+
+// ---------------------------------------------------------------------------------------------
+// generator
+
+pub const PENDS: &[usize] = &[0, 1, 2, 3];
+
+pub fn gen_script(rng: &mut Rng, allow_empty: bool, allow_err: bool) -> (String, usize) {
+    let n = rng.range(0, 5);
+    let mut v = Vec::new();
+    let mut total = 0;
+    for _ in 0..n {
+        let r = rng.below(12);
+        if r < 7 {
+            let k = if rng.chance(1, 10) { rng.range(200, 700) } else { rng.range(1, 12) };
+            total += k;
+            v.push(k.to_string());
+        } else if r < 10 {
+            v.push("P".into());
+        } else if r == 10 && allow_empty {
+            v.push("0".into());
+        } else if r == 11 && allow_err && rng.chance(1, 2) {
+            v.push("X".into());
+            break;
+        } else {
+            v.push("P".into());
+        }
+    }
+    (if v.is_empty() { "-".into() } else { v.join(".") }, total)
+}
+
+pub fn gen_body(rng: &mut Rng) -> String {
+    match rng.below(14) {
+        0 => "e".into(),
+        1 => "N".into(),
+        2 | 3 => format!("b{}", rng.range(1, 20)),
+        4 | 5 => {
+            let (s, t) = gen_script(rng, true, true);
+            let n = match rng.below(5) {
+                0 => t + rng.range(1, 4),
+                1 => t.saturating_sub(rng.range(1, 3)),
+                _ => t,
+            };
+            format!("z{n}/{s}")
+        }
+        6 | 7 | 8 => format!("s/{}", gen_script(rng, true, true).0),
+        9 | 10 => format!("mS/{}", gen_script(rng, true, true).0),
+        11 => {
+            let (s, t) = gen_script(rng, true, true);
+            let n = match rng.below(4) {
+                0 => t + 2,
+                1 => t.saturating_sub(1),
+                _ => t,
+            };
+            format!("m{n}/{s}")
+        }
+        12 => format!("mN/{}", gen_script(rng, false, false).0),
+        _ => format!("b{}", rng.range(1, 400)),
+    }
+}
+
+pub fn gen_handler(rng: &mut Rng, req_has_body: bool) -> String {
+    let pend = *rng.pick(PENDS);
+    let act = if req_has_body {
+        match rng.below(8) {
+            0 | 1 => "i".to_owned(),
+            2 => "d".to_owned(),
+            3 | 4 => "a".to_owned(),
+            5 => format!("r{}", rng.range(1, 8)),
+            _ => "k".to_owned(),
+        }
+    } else {
+        (*rng.pick(&["i", "i", "i", "a", "d"])).to_owned()
+    };
+    let status = match rng.below(16) {
+        0 => "204".to_owned(),
+        1 => "304".to_owned(),
+        2 => "404".to_owned(),
+        3 => "E500".to_owned(),
+        4 => "201".to_owned(),
+        _ => "200".to_owned(),
+    };
+    let conn = match rng.below(12) {
+        0 => "c",
+        1 => "k",
+        _ => "-",
+    };
+    let mut hd = String::new();
+    if rng.chance(1, 8) {
+        hd.push_str(&format!("L{}", rng.range(0, 9)));
+    }
+    if rng.chance(1, 10) {
+        hd.push('T');
+    }
+    if rng.chance(1, 10) {
+        hd.push('C');
+    }
+    if hd.is_empty() {
+        hd.push('-');
+    }
+    format!("p{pend}:{act}:{status}:{conn}:{hd}:{}", gen_body(rng))
+}
+
+pub fn gen_req(rng: &mut Rng, body_bias: usize) -> (String, Vec<String>, bool) {
+    // returns (spec, body unit tokens in order (without request index), has_body)
+    let minor = if rng.chance(1, 4) { 0 } else { 1 };
+    let m = *rng.pick(&["G", "G", "G", "H", "H", "P", "P", "T", "D"]);
+    let conn = *rng.pick(&["-", "-", "-", "-", "k", "c"]);
+    let want_body = (m == "P" || m == "T" || rng.chance(1, 10)) && rng.below(10) < body_bias;
+    let (b, units): (String, Vec<String>) = if want_body || (minor == 0 && m == "P") {
+        if minor == 1 && rng.chance(1, 2) {
+            let n = rng.range(0, 3);
+            let sizes: Vec<usize> = (0..n).map(|_| rng.range(1, 30)).collect();
+            let mut u: Vec<String> = (0..n).map(|j| format!("c{j}")).collect();
+            u.push("z".into());
+            (format!("c{}", sizes.iter().map(|s| s.to_string()).collect::<Vec<_>>().join(".")), u)
+        } else {
+            let n = rng.range(0, 40);
+            let mut u = Vec::new();
+            let mut left = n;
+            while left > 0 {
+                let k = rng.range(1, left);
+                u.push(format!("b{k}"));
+                left -= k;
+            }
+            (format!("l{n}"), u)
+        }
+    } else {
+        ("n".into(), vec![])
+    };
+    let has_body = !units.is_empty();
+    let x = if rng.chance(1, 8) { *rng.pick(&["e", "e", "w1", "w2", "f"]) } else { "-" };
+    (format!("{m}:{minor}:{conn}:{b}:{x}"), units, has_body)
+}
+
+pub fn gen_reads(rng: &mut Rng, units: Vec<String>, one_segment: bool) -> String {
+    // units in wire order; cut into segments, sprinkle Pending, maybe EOF
+    let mut segs: Vec<String> = Vec::new();
+    let mut cur: Vec<String> = Vec::new();
+    for u in units {
+        // split a head in two halves sometimes
+        if u.ends_with('h') && rng.chance(1, 8) && !one_segment {
+            cur.push(format!("{u}a"));
+            segs.push(cur.join("+"));
+            cur = vec![format!("{u}b")];
+            for _ in 0..rng.below(3) {
+                segs.push("P".into());
+            }
+            continue;
+        }
+        cur.push(u);
+        if !one_segment && rng.chance(1, 3) {
+            segs.push(cur.join("+"));
+            cur = Vec::new();
+            for _ in 0..*rng.pick(&[0usize, 0, 1, 1, 2, 3]) {
+                segs.push("P".into());
+            }
+        }
+    }
+    if !cur.is_empty() {
+        segs.push(cur.join("+"));
+    }
+    match rng.below(8) {
+        0 | 1 => segs.push("E".into()),
+        2 => {
+            for _ in 0..rng.range(1, 4) {
+                segs.push("P".into());
+            }
+            segs.push("E".into());
+        }
+        3 => {
+            for _ in 0..rng.range(1, 6) {
+                segs.push("P".into());
+            }
+        }
+        _ => {}
+    }
+    if segs.is_empty() {
+        "-".into()
+    } else {
+        segs.join(",")
+    }
+}
+
+pub fn gen_cfg(rng: &mut Rng) -> String {
+    format!(
+        "ka={} dt={} hc={} wb={}",
+        if rng.chance(1, 6) { 0 } else { 1 },
+        rng.below(2),
+        if rng.chance(1, 4) { 0 } else { 1 },
+        *rng.pick(&[32768usize, 32768, 32768, 64, 8, 1])
+    )
+}
+
+pub fn gen_writes(rng: &mut Rng) -> String {
+    if rng.chance(2, 3) {
+        return "-".into();
+    }
+    let n = rng.range(1, 6);
+    let v: Vec<String> = (0..n)
+        .map(|_| match rng.below(10) {
+            0..=4 => rng.range(1, 40).to_string(),
+            5..=8 => "P".to_owned(),
+            _ => (*rng.pick(&["X", "Z", "P", "7"])).to_owned(),
+        })
+        .collect();
+    v.join(",")
+}
+
+pub fn gen_random(rng: &mut Rng, body_bias: usize) -> String {
+    let n = *rng.pick(&[1usize, 2, 2, 2, 3, 3, 4, 5]);
+    let mut qs = Vec::new();
+    let mut hs = Vec::new();
+    let mut units = Vec::new();
+    let bad_at = if rng.chance(1, 10) { Some(rng.below(n)) } else { None };
+    for i in 0..n {
+        if bad_at == Some(i) {
+            qs.push("X".to_owned());
+            hs.push("p0:i:200:-:-:e".to_owned());
+            units.push(format!("{i}h"));
+            continue;
+        }
+        let (q, us, has_body) = gen_req(rng, body_bias);
+        qs.push(q);
+        hs.push(gen_handler(rng, has_body));
+        units.push(format!("{i}h"));
+        // sometimes the client does not send the whole body
+        let keep = if rng.chance(1, 8) { rng.below(us.len() + 1) } else { us.len() };
+        let cut = keep < us.len();
+        for u in us.into_iter().take(keep) {
+            units.push(format!("{i}{u}"));
+        }
+        if cut {
+            // the client stops in the middle of this body: nothing follows
+            break;
+        }
+    }
+    let one = rng.chance(1, 3);
+    format!("{} q={} h={} r={} w={}", gen_cfg(rng), qs.join(";"), hs.join(";"), gen_reads(rng, units, one), gen_writes(rng))
+}
+
+fn gen(ctx: &Ctx) -> Vec<String> {
+    let mut cases = Vec::new();
+    // exhaustive two-request family: the window "request 2 decoded while response 1 not yet encoded"
+    let bodies = ["e", "b5", "s/3.4", "mS/2.0.3", "z5/2.3"];
+    for m1 in ["G", "H"] {
+        for m2 in ["G", "H"] {
+            for v1 in ["0:k", "1:-", "1:c"] {
+                for v2 in ["0:k", "1:-", "1:c", "0:-"] {
+                    for p1 in [0usize, 1, 2] {
+                        for (bi, b) in bodies.iter().enumerate() {
+                            if ctx.tier == Tier::Quick && (bi + p1) % 2 == 1 && m1 == "H" {
+                                continue;
+                            }
+                            cases.push(format!(
+                                "ka=1 dt=0 hc=1 wb=32768 q={m1}:{v1}:n:-;{m2}:{v2}:n:- h=p{p1}:i:200:-:-:{b};p0:i:200:-:-:b4 r=0h+1h w=-"
+                            ));
+                        }
+                    }
+                }
+            }
+        }
+    }
+    // status x body kind x method table (head rules)
+    for st in ["200", "204", "304", "404"] {
+        for b in ["e", "N", "b3", "s/2.2", "z4/4", "mS/1", "m3/3", "mN/-"] {
+            for m in ["G", "H"] {
+                for v in ["0", "1"] {
+                    for hd in ["-", "L7", "T", "L7T"] {
+                        cases.push(format!("ka=1 dt=0 hc=1 wb=32768 q={m}:{v}:-:n:- h=p0:i:{st}:-:{hd}:{b} r=0h w=-"));
+                    }
+                }
+            }
+        }
+    }
+    let mut rng = Rng::new(ctx.seed);
+    for _ in 0..ctx.budget(2500) {
+        cases.push(gen_random(&mut rng, 6));
+    }
+    cases
+}
+
+fn run(line: &str) -> CaseResult {
+    let Some(run) = run_case(line) else {
+        return CaseResult { output: "bad-case".into(), fail: None, nontrivial: false, tags: vec!["bad-case".into()] };
+    };
+    let mut res = CaseResult::ok(run.output.clone());
+    res.nontrivial = !run.sim.log.calls.is_empty() && run.sim.wire.starts_with(b"HTTP/1.");
+    res.tags.push(format!("reqs={}", run.case.reqs.len()));
+    res.tags.push(format!("D={}", run.sim.done));
+    for h in &run.case.handlers {
+        res.tags.push(
+            match &h.body {
+                BodyKind::Empty => "body=empty",
+                BodyKind::NoneBody => "body=none",
+                BodyKind::Bytes(_) => "body=bytes",
+                BodyKind::SizedStream(..) => "body=sized-stream",
+                BodyKind::BodyStream(_) => "body=stream",
+                BodyKind::Custom(..) => "body=custom",
+            }
+            .to_owned(),
+        );
+    }
+    if run.sim.log.calls.len() >= 2 {
+        res.tags.push("pipelined-dispatch".into());
+    }
+    if let Some((sig, detail)) = oracle_c02(&run) {
+        res = res.fail(&sig, detail);
+    }
+    res
+}
 
 pub fn prop() -> Prop {
-    Prop {
-        rule: "unimplemented",
-        parallel: false,
-        gen: Box::new(|_| Vec::new()),
-        run: Box::new(|_| CaseResult::ok("unimplemented".to_owned())),
-    }
+    Prop { rule: RULE, parallel: true, gen: Box::new(gen), run: Box::new(run) }
 }
